@@ -600,7 +600,7 @@ macro_rules! fse_stepx_fam {
         }
     };
 }
-fse_step_fam!(c01_fse_step_t13_start, probe, 4100, 0, 0);
+fse_step_fam!(c01_fse_step_t13_start, thorough, 4100, 0, 0);
 fse_stepx_fam!(c01_fse_step_t13_xmax, probe, 4100, 0, 1);
 fse_step_fam!(c01_fse_step_t13_top, probe, 4100, 0, 2);
 fse_step_fam!(c01_fse_step_t13_l, probe, 4100, 0, 3);
